@@ -155,7 +155,7 @@ func init() {
 		Level: "other",
 		Decided: "integers survive both directions of all three codecs: every non-constant integer conversion on the encoder and decoder number paths keeps the value (operand interval inside the target range on every path) or is an enumerated wire-format idiom with a stated reason; CBOR initial bytes pack only arguments 0..23 inline; UBJSON's marker selection tables respect the markers' ranges and maxNumType is a proper maximum (R5).",
 		NotDecided: "strings byte for byte, key order, nesting, option combinations, escape/unescape inversion, float text (see C07 R19 for the format call), the CBOR empty-key refusal asymmetry - all value-level.",
-		Assumptions: []string{"interval domain is non-relational; the three accepted idioms (two's-complement wire reinterpretation in ubjson, remainder extraction, marker-selected narrowing with a mechanically checked premise) are the places where a relational argument is needed"},
+		Assumptions: []string{"remaining-length entries (lengthStack.current) lie between -1 and the largest value any push site can push: countdowns are assumed never to go below -1 (each decrement is matched by an element or byte actually consumed)", "interval domain is non-relational; the three accepted idioms (two's-complement wire reinterpretation in ubjson, remainder extraction, marker-selected narrowing with a mechanically checked premise) are the places where a relational argument is needed"},
 		TrustedBase: baseTrusted,
 		Rules: []RuleRun{
 			{"R5", R5("json", "cborl", "ubjson")},
